@@ -96,7 +96,49 @@ func (e *Env) runHandshake() error {
 	if e.Sc.ReseedGlobal != nil {
 		mathrand.Seed(*e.Sc.ReseedGlobal) //nolint:staticcheck // the point is to control the global generator
 	}
+	var companions chan string
+	if k := e.Sc.Companions; k > 0 {
+		companions = make(chan string, k)
+		bar := refsrv.NewBarrier(k + 1)
+		e.Srv.DHBarrier = bar
+		start := make(chan struct{})
+		for i := 0; i < k; i++ {
+			cs, err := e.AddServer(fmt.Sprintf("companion-%d", i))
+			if err != nil {
+				return err
+			}
+			cs.Fault = nil
+			cs.DHBarrier = bar
+			cs.OnRequest = defaultAPI
+			oc, err := mtproto.NewMTProto(mtproto.Config{AuthKeyFile: filepath.Join(e.Dir, fmt.Sprintf("companion-%d.json", i)), ServerHost: cs.Addr(), PublicKey: e.PublicKey()})
+			if err != nil {
+				return err
+			}
+			go func(i int, oc *mtproto.MTProto) {
+				res := fmt.Sprintf("companion %d: ok", i)
+				defer func() {
+					if r := recover(); r != nil {
+						res = fmt.Sprintf("companion %d failed: panic: %v", i, r)
+					}
+					companions <- res
+				}()
+				<-start
+				if err := oc.CreateConnection(); err != nil {
+					res = fmt.Sprintf("companion %d failed: %v", i, err)
+				}
+			}(i, oc)
+		}
+		close(start)
+	}
 	e.Connect(e.patience(), abort)
+	for i := 0; i < e.Sc.Companions; i++ {
+		select {
+		case r := <-companions:
+			e.Res.Notes = append(e.Res.Notes, r)
+		case <-time.After(e.patience()):
+			e.Res.Notes = append(e.Res.Notes, fmt.Sprintf("companion unfinished after %v", e.patience()))
+		}
+	}
 	if e.Res.Connected {
 		e.Res.ClientAuthKey = e.Client.GetAuthKey()
 		e.Res.ClientSalt = e.Client.GetServerSalt()
